@@ -1,4 +1,4 @@
-"""C12 — transport EOF or error at any point ends the connection cleanly (R12.1–R12.5)."""
+"""C12 — transport EOF or error at any point ends the connection cleanly (R12.1–R12.7)."""
 import events as E
 import ir
 from . import common
@@ -570,14 +570,33 @@ def run(rep, facts):
     rep.floor("R12.5", "Pending edges of transport polls in poll-style functions", npend, 5)
 
 
+def run_parser_totality(rep, facts):
+    """R12.7: "terminates without panicking" when the input stops at any byte position: the connection task hands whatever the transport
+    delivered to the two parsers, so every prefix of a record stream is parser input; that the framing code never slices, splits, indexes,
+    subtracts or narrows out of range on any path is R3.11 of C03 (E8), re-evaluated."""
+    import check
+    from . import c03
+    rep.rule("R12.7", "no prefix of the incoming record stream -- which is what an EOF or error at an arbitrary byte position leaves the parsers with -- "
+                      "drives the framing code of either parser out of range: every subtraction, narrowing cast, slice, split_at, copy_within and index is in range on every path (R3.11)")
+    sr = check.Report("tmp", "quick")
+    c03.run_arith(sr, facts)
+    n = 0
+    for i in sr.instances:
+        if i["rule"] == "R3.11":
+            n += 1
+            (rep.ok if i["status"] == "ok" else rep.violation)("R12.7", i["instance"], i["detail"], i["loc"])
+    rep.floor("R12.7", "framing functions", n, 8)
+
+
 def main(rep, tier):
     import check
     import facts as F
     f = F.load(("async", "http"))
     rep.configs.append({"features": "async,http", "profile": "debug", "bodies": len(f.bodies)})
     check.guard(rep, "R12", run, f)
+    check.guard(rep, "R12.7", run_parser_totality, f)
     return rep.finish(
         "Path rules over the interprocedural event graph of the connection task and of the poll-style APIs: EOF (zero-length read) and "
         "WriteZero checks guard every use of a transport byte count, errors are propagated or explicitly tolerated, no I/O follows an "
         "unhandled error, every cycle makes progress and Pending is propagated.",
-        not_decided="panic-freedom of the glue code (arithmetic, slicing, expect) is not decided")
+        not_decided="panic-freedom of the async glue code itself (expect / assert in async_io) is not decided; that of the parsers' framing code is R12.7 = R3.11")
